@@ -172,11 +172,16 @@ def _hod_grid(tier):
                             continue
                         out.append({'shape': s, 'order': order, 'prev': prev, 'normalize': normalize, 'cplx': cplx,
                                     'steps': 2 if order == 2 else 1, 'conc_op': False})
+    # the caller supplies the differencing operator op_hod (documented option): same recurrence, including the start-up half step
+    for order in (2, 4):
+        for prev in (False, True):
+            out.append({'shape': SHAPES[0], 'order': order, 'prev': prev, 'normalize': 0, 'cplx': False, 'steps': 1, 'conc_op': False, 'supply_op': True})
+    out.append({'shape': SHAPES[0], 'order': 6, 'prev': False, 'normalize': 0, 'cplx': False, 'steps': 2, 'conc_op': True, 'supply_op': True})
     return out
 
 
 @scenario('C09', 'hod', _hod_grid)
-def hod(ctx, shape, order, prev, normalize, cplx, steps, conc_op=False):
+def hod(ctx, shape, order, prev, normalize, cplx, steps, conc_op=False, supply_op=False):
     """x_{k+1} = x_{k-1} + H x_k with H = sum_j 2/(2j-1)! h^(2j-1) A^(2j-1); start-up by an Euler half step and a HOD half step backwards"""
     TT, ode = ctx.R.TT, ctx.R.ode
     d = len(shape['dims'])
@@ -209,8 +214,20 @@ def hod(ctx, shape, order, prev, normalize, cplx, steps, conc_op=False):
         A = TT(opcores())
         x0 = TT(mk_cores(ctx, 'x', sx, cplx))
         pv = TT(mk_cores(ctx, 'pv', sx, cplx)) if prev else None
+        op_hod = None
+        if supply_op:
+            # sum_j 2/(2j-1)! h^(2j-1) A^(2j-1) assembled with TT arithmetic (its value is C01's claim)
+            P = A
+            for j in range(1, eff // 2 + 1):
+                if j > 1:
+                    P = P @ A @ A
+                sp = h
+                for _ in range(2 * j - 2):
+                    sp = sp * h
+                term = (ctx.lift(2 / math.factorial(2 * j - 1)) * sp) * P
+                op_hod = term if op_hod is None else op_hod + term
         with NormStub(ctx, TT) as ns:
-            sol = ode.hod(A, x0, h, steps, order=order, previous_value=pv, threshold=0, max_rank=50, normalize=normalize, progress=False)
+            sol = ode.hod(A, x0, h, steps, order=order, previous_value=pv, op_hod=op_hod, threshold=0, max_rank=50, normalize=normalize, progress=False)
         box.update(A=A, x0=x0, sol=sol, norms=ns.calls)
         return ctx.cat([_dense_vec(ctx, t) for t in sol])
 
